@@ -1398,6 +1398,10 @@ class GenFunctions(object):
             # The buffer function is intended to be called by Fortran.
             # No Fortran, no need for buffer function.
             return
+        if node.wrap.fortran is False:
+            # For example, a function template which has been
+            # replaced by its instantiations.
+            return
 
         ast = node.ast
         result_typemap = ast.typemap
